@@ -97,6 +97,8 @@ type Instance struct {
 	Outcome func() string
 	// Nontrivial says whether this execution exercised what the case is about.
 	Nontrivial func(r *vrt.Result) bool
+	// Recorders exposes the observers of the instance to an alternative oracle (see AltCheck).
+	Recorders func() []*h.Rec
 }
 
 // Case describes one closed driver to explore exhaustively.
@@ -133,6 +135,10 @@ func Pinned(sig, detail string) Violation {
 // BoundCap, if >= 0, caps the deviation bound of every case (used by the race-detector pass, whose
 // executions are an order of magnitude slower).
 var BoundCap = -1
+
+// AltCheck, if set, replaces the oracle of every case that exposes its recorders: a property that borrows
+// the concurrent drivers of another one judges the same executions by its own clauses.
+var AltCheck func(recs []*h.Rec, r *vrt.Result) []Violation
 
 // RaceOnly replaces every case's own oracle by the race-detector oracle.
 var RaceOnly = false
@@ -171,7 +177,8 @@ func (c *Ctx) Explore(cs Case) {
 			o = inst.Outcome()
 			outcomes[o] = true
 		}
-		if inst.Nontrivial == nil || inst.Nontrivial(r) {
+		// default rule: an execution is non-trivial when its observers received at least one notification
+		if (inst.Nontrivial == nil && strings.Trim(o, " |") != "") || (inst.Nontrivial != nil && inst.Nontrivial(r)) {
 			nontriv[o] = true
 		}
 		if RaceOnly {
@@ -181,6 +188,16 @@ func (c *Ctx) Explore(cs Case) {
 				v.Case = cs.Name
 				v.Choices = explore.ChoiceList(r)
 				c.addViolation(v)
+			}
+		} else if AltCheck != nil {
+			if inst.Recorders != nil {
+				for _, v := range AltCheck(inst.Recorders(), r) {
+					v.Property = c.Property
+					v.Scenario = c.Scn.ID
+					v.Case = cs.Name
+					v.Choices = explore.ChoiceList(r)
+					c.addViolation(v)
+				}
 			}
 		} else if inst.Check != nil {
 			for _, v := range inst.Check(r) {
@@ -248,6 +265,16 @@ func (c *Ctx) doReplay(cs Case) {
 				v.Case = cs.Name
 				v.Choices = explore.ChoiceList(r)
 				c.addViolation(v)
+			}
+		} else if AltCheck != nil {
+			if inst.Recorders != nil {
+				for _, v := range AltCheck(inst.Recorders(), r) {
+					v.Property = c.Property
+					v.Scenario = c.Scn.ID
+					v.Case = cs.Name
+					v.Choices = explore.ChoiceList(r)
+					c.addViolation(v)
+				}
 			}
 		} else if inst.Check != nil {
 			for _, v := range inst.Check(r) {
